@@ -280,6 +280,8 @@ def run_shard(rec, shard, nshards):
         _state["steps"] = steps.Steps(core.REPO)
         wide_ladder(rec)
         _state["steps"].shutdown()
+    if shard == 3:
+        sharing_ladder(rec)
     rec.samples.append({"seed_envelopes": len(seeds), "inputs_parsed": rec.evaluations,
                         "max_local_steps_per_byte": rec.extra["max_local_steps_per_byte"],
                         "max_case_ms": rec.extra["max_case_ms"]})
@@ -429,6 +431,62 @@ def wide_ladder(rec):
     rec.extra["wide_ladder"] = rows
 
 
+SHARE_GROWTH = 12       # allowed CPU-time ratio between 26 and 14 levels (the input grows 1.7x, 2^12 = 4096x if expanded)
+
+
+def sharing_ladder(rec):
+    """value sharing: inputs of 6 bytes per level whose tree expansion doubles per level.  Work below the Python level
+    (re-serialisation, repr in messages) is the risk, so the observable is CPU time: t(26 levels) / max(t(14), 5 ms),
+    each the minimum over 2 runs; the deeper input is only tried when the shallower one was cheap (a 2^n expansion
+    of 26 levels would take minutes)"""
+    from suit_generator.suit.envelope import SuitEnvelopeTagged
+    rows = []
+    for name, place in Hx.SHARING_PLACEMENTS.items():
+        row = {"placement": name}
+
+        def cpu(n):
+            data = place(Hx.shared_reference_doubling(n))
+            best = None
+            for _ in range(2):
+                t0 = time.process_time()
+                try:
+                    SuitEnvelopeTagged.from_cbor(data).to_obj()
+                    o = "model"
+                except Exception as e:  # noqa
+                    o = "input-error" if classify(e) is None else type(e).__name__
+                dt = time.process_time() - t0
+                best = dt if best is None else min(best, dt)
+            return len(data), best, o
+        l14, t14, o14 = cpu(14)
+        row.update(len_14=l14, cpu_14=round(t14, 4), outcome_14=o14)
+        rec.count("sharing-ladder-inputs")
+        rec.case(f"sharing/{name}/14", True)
+        if o14 not in ("model", "input-error"):
+            rec.violation("internal-error:" + o14, f"{o14} escaped the parser (value sharing, {name}, 14 levels)",
+                          {"kind": "sharing", "placement": name, "levels": 14})
+        if t14 > 0.25:
+            rec.violation("cpu-time-grows-exponentially-with-shared-references",
+                          f"{name}: {t14:.2f} s of CPU for a {l14}-byte input with 14 levels of shared references "
+                          "(each level doubles the expanded size)", {"kind": "sharing", "placement": name, "levels": 14})
+        else:
+            l26, t26, o26 = cpu(18)
+            ratio18 = t26 / max(t14, 0.005)
+            row.update(len_18=l26, cpu_18=round(t26, 4), ratio_18_vs_14=round(ratio18, 1))
+            if ratio18 <= SHARE_GROWTH:
+                l26, t26, o26 = cpu(26)
+                row.update(len_26=l26, cpu_26=round(t26, 4), outcome_26=o26,
+                           ratio_26_vs_14=round(t26 / max(t14, 0.005), 1))
+                rec.case(f"sharing/{name}/26", True)
+            if max(ratio18, t26 / max(t14, 0.005)) > SHARE_GROWTH:
+                rec.violation("cpu-time-grows-exponentially-with-shared-references",
+                              f"{name}: CPU time {t14 * 1000:.1f} ms for 14 levels ({l14} B) but {t26 * 1000:.0f} ms for "
+                              f"{'18' if 'len_26' not in row else '26'} levels ({l26} B): work follows the 2^n tree "
+                              "expansion of the shared references, not the input size",
+                              {"kind": "sharing", "placement": name})
+        rows.append(row)
+    rec.extra["sharing_ladder"] = rows
+
+
 def alloc_monitor(rec, inputs):
     if not inputs:
         return
@@ -471,6 +529,8 @@ def finish(merged, tier, seed):
         merged["inconclusive"].append("guard-off ladder incomplete")
     if cnt.get("wide-families", 0) < len(Hx.WIDE_FAMILIES):
         merged["inconclusive"].append("wide ladder incomplete")
+    if cnt.get("sharing-ladder-inputs", 0) < len(Hx.SHARING_PLACEMENTS):
+        merged["inconclusive"].append("shared-reference ladder incomplete")
     if cnt.get("wrapped-nesting-depths", 0) < 100:
         merged["inconclusive"].append("wrapped nesting ladder incomplete")
     for k in ("kind:type", "kind:inflate", "kind:nest-plain", "kind:bytes", "tracemalloc-sampled", "file-route:load",
@@ -488,6 +548,7 @@ def finish(merged, tier, seed):
         "growth_run_depth2_to_64": (ex.get("growth_run_depth2_to_64") or [None])[0],
         "alloc_monitor": (ex.get("alloc_monitor") or ["not run"])[0],
         "wide_ladder": (ex.get("wide_ladder") or [[]])[0],
+        "sharing_ladder": (ex.get("sharing_ladder") or [[]])[0],
     }
     return out
 
